@@ -16,6 +16,7 @@ package bayes
 
 import (
 	"math"
+	"sort"
 	"strings"
 
 	"github.com/sboehler/knut/lib/common/dict"
@@ -94,11 +95,18 @@ func (m *Model) Infer(t *syntax.Transaction) {
 
 func (m *Model) inferAccount(t *syntax.Transaction, b *syntax.Booking, other string) syntax.Account {
 	var (
-		tokens = tokenize(t, b, other)
+		tokens = sortedTokens(tokenize(t, b, other))
 		max    = math.Inf(-1)
 		best   string
 	)
+	// Candidates are visited, and token scores summed, in a fixed order: candidates
+	// with equal scores always resolve to the same account (the first by name).
+	candidates := make([]string, 0, len(m.countByAccount))
 	for candidate := range m.countByAccount {
+		candidates = append(candidates, candidate)
+	}
+	sort.Strings(candidates)
+	for _, candidate := range candidates {
 		if candidate == other {
 			continue // the other account of this booking is not a valid candidate
 		}
@@ -113,10 +121,10 @@ func (m *Model) inferAccount(t *syntax.Transaction, b *syntax.Booking, other str
 	}
 }
 
-func (m *Model) scoreCandidate(candidate string, tokens set.Set[token]) float64 {
+func (m *Model) scoreCandidate(candidate string, tokens []token) float64 {
 	count := float64(m.countByAccount[candidate])
 	score := math.Log(count / float64(m.count))
-	for token := range tokens {
+	for _, token := range tokens {
 		if countForToken, ok := m.countByTokenAndAccount[token][candidate]; ok {
 			score += math.Log(float64(countForToken) / count)
 		} else {
@@ -124,6 +132,15 @@ func (m *Model) scoreCandidate(candidate string, tokens set.Set[token]) float64 
 		}
 	}
 	return score
+}
+
+func sortedTokens(tokens set.Set[token]) []token {
+	res := make([]token, 0, len(tokens))
+	for t := range tokens {
+		res = append(res, t)
+	}
+	sort.Slice(res, func(i, j int) bool { return res[i] < res[j] })
+	return res
 }
 
 func tokenize(t *syntax.Transaction, b *syntax.Booking, other string) set.Set[token] {
